@@ -33,7 +33,7 @@ ERR_NAMES = {1: "block-conditional-edge", 2: "block-no-loose-exit", 3: "entry-of
              5: "no-default-exit", 6: "edge-from-missing-row", 7: "go_to-destination-count", 8: "merge-wrong-source",
              9: "merge-needs-one-unconditional-edge", 10: "unterminated-block", 11: "wrong-block-terminator",
              12: "unexpected-end-of-flow", 13: "category-name-too-long", 14: "duplicate-node-uuid", 15: "crash",
-             16: "MODEL-INTERNAL", 17: "MODEL-OUT-OF-FUEL"}
+             16: "MODEL-INTERNAL", 17: "MODEL-OUT-OF-FUEL", 18: "category-name-taken"}
 CRASH_NAMES = {1: "KeyError", 2: "IndexError", 3: "AttributeError", 4: "ValueError", 5: "RapidProActionError"}
 CRITICAL_PATTERNS = [
     (1, "Cannot attach conditional edges to a block"), (2, "Block has no loose exit"),
@@ -41,7 +41,7 @@ CRITICAL_PATTERNS = [
     (5, "does not support default exits"), (6, "which does not exist"), (7, "number of destinations"),
     (8, "edge must come from a node with name"), (9, "exactly one unconditional incoming edge"),
     (10, "Sheet has unterminated block"), (11, "Wrong block terminator"), (12, "Unexpected end of flow"),
-    (13, "Category name too long"), (14, "is used by more than one node")]
+    (13, "Category name too long"), (14, "is used by more than one node"), (18, "is taken by the default or")]
 
 
 # ---------------------------------------------------------------- rows -> model input
@@ -381,6 +381,11 @@ def directed():
             row("split_by_group", "7", "5", ["grp one"]), msg("8", [E("7", value="grp one"), E("7", value="grp two", ctype="has_group")])]),
         ("has_group on an edge leaving a no_op decision", [
             msg("1", S), row("no_op", "n", "1"), msg("2", [E("n", value="grp one", ctype="has_group", variable="@contact.groups")]), msg("3", [E("n")])]),
+        # ---- an explicit category name that is already the name of another category of the router (findings category-name-clash)
+        ("clash: explicit name equals a generated name", [wait("1", S), msg("2", [E("1", value="yes")], "A"), msg("3", [E("1", value="yeah", name="Yes")], "B")]),
+        ("clash: explicit name Other", [wait("1", S), msg("2", [E("1")], "A"), msg("3", [E("1", value="x", name="Other")], "B")]),
+        ("clash: explicit name No Response", [wait("1", S, no_response="60"), msg("2", [E("1", value="No Response")], "A"),
+                                              msg("3", [E("1", value="x", name="No Response")], "B")]),
         # ---- error classes
         ("err: edge from a missing row", [msg("1", S), msg("2", "nope")]),
         ("err: go_to into a no_op", [msg("1", S), row("no_op", "n", "1"), msg("2", "n"), row("go_to", "", [E("2")], ["n"])]),
